@@ -36,7 +36,7 @@ func init() {
 }
 
 type c05Case struct {
-	Kind   string    `json:"kind"` // file | shard | path
+	Kind   string    `json:"kind"` // file | hand | shard | handshard | path
 	File   fileCase  `json:"file,omitempty"`
 	Fanout int       `json:"fanout,omitempty"`
 	Names  []string  `json:"names,omitempty"`
@@ -64,7 +64,7 @@ func (c c05Case) String() string {
 	switch c.Kind {
 	case "file":
 		return "file " + c.File.String()
-	case "hand":
+	case "hand", "handshard":
 		return c.Hand
 	case "path":
 		return "path-tree " + c.Tree.String()
